@@ -9,8 +9,8 @@ from pyvc.engine import Engine
 META = {
     "level": "other",
     "technique": "contract-based deductive verification (pyvc, SMT) of the navigation primitives the classifier is built on (find_next_token skips everything that is not a raw item; keyword tests compare lower-cased values); relational re-layout check of the whole classifier on corpus files as bounded stand-in",
-    "text": "Proved for all token lists: find_next_token returns the next raw item at or after its argument and skips only already-classified tokens of whatever kind (so whitespace, comments and line breaks cannot influence it); is_item is an exact-type test; object_value_is compares the lower-cased value with the lower-cased keyword. The 170-module recursive-descent classifier built on these primitives is NOT under contract: the property itself is checked as a labelled bounded stand-in (five re-layouts of every sampled accepted corpus file must be accepted and give every code token the same role).",
-    "note": "Bounded part: tests/**/*.vhd, re-layouts derived from the file path (whitespace resize, case change outside literals, line split, line join, comment insertion). Trusted: pyvc, SMT solvers, class table read from the real classes.",
+    "text": "Proved for all token lists: find_next_token returns the next raw item at or after its argument and skips only already-classified tokens of whatever kind (so whitespace, comments and line breaks cannot influence it); is_item is an exact-type test; object_value_is compares the lower-cased value with the lower-cased keyword. The 170-module recursive-descent classifier built on these primitives is NOT under contract: the property itself is checked as a labelled bounded stand-in (seven re-layouts of every sampled accepted corpus file and of every classification fixture must be accepted and give every code token the same role).",
+    "note": "Bounded part: tests/**/*.vhd, re-layouts derived from the file path (whitespace resize, whitespace inserted next to delimiters, case change outside literals, line split, line join, comment insertion, pragma-like comments). Trusted: pyvc, SMT solvers, class table read from the real classes.",
 }
 
 QUALS = [
@@ -28,13 +28,15 @@ def run():
     c.deductive(QUALS)
     n = 300 if c.tier == "quick" else 10**6
     files = corpus.sample(n, c.seed + 5)
+    # the classifier's own fixtures (one per production, tests/vhdlFile/*/*.vhd) are in every run, whatever the sample
+    files = sorted(set(files) | set(f for f in corpus.corpus_files() if "/tests/vhdlFile/" in f))
     res = corpus.pmap(relayout.one, files, chunksize=4)
     ok = [r for r in res if r[1] == "ok"]
-    c.bounded["relayout"] = {"evaluations": 6 * len(ok), "distinct_nontrivial": len(ok), "rejected_originals": len(res) - len(ok), "rule": "accepted corpus file x 6 path-derived re-layouts (white-space resize, case change outside literals, line split, line join, comment insertion, pragma-like own-line comments between tokens); roles (token classes) of all code tokens compared; non-trivial = distinct accepted file"}
+    c.bounded["relayout"] = {"evaluations": 7 * len(ok), "distinct_nontrivial": len(ok), "rejected_originals": len(res) - len(ok), "rule": "accepted corpus file (a seeded sample, plus every fixture of tests/vhdlFile in every run) x 7 path-derived re-layouts (white-space resize, white space / line break / comment put between a delimiter and the word or parenthesis written next to it, case change outside literals, line split, line join, comment insertion, pragma-like own-line comments between tokens); roles (token classes) of all code tokens compared; non-trivial = distinct accepted file"}
     for p, st, probs in res:
         for kind, why in probs or []:
             rel = os.path.relpath(p, corpus.REPO)
-            c.findings.append(Finding("bounded", "relayout:" + kind, "%s: %s" % (rel, why), {"file": p, "relayout": kind, "observed": why}, rel))
+            c.findings.append(Finding("bounded", "relayout:" + kind, "%s: %s" % (rel, why), {"file": p, "relayout": kind, "observed": why}, "%s: %s" % (rel, why)))
     # a comment owns its whole line: the reader must not cut lines at VT / FF / NEL / LS (the tail of a comment would be read as code)
     from bounded import readfile
 
